@@ -200,3 +200,22 @@ Qed.
 Lemma io_counters_gen_roundtrip : forall items,
   forallb ioitem_ok items = true -> io_counters_gen (k_io items) = spec_io items.
 Proof. intros items H. rewrite io_counters_gen_correct. now apply io_roundtrip. Qed.
+
+(* ------------------------------------------------ readlink() and the strict stat helpers,
+   translated from the source, are what the model assumes *)
+From PV Require Import C14.PyPath.
+
+Theorem gen_readlink_correct : forall raw ex, run_readlink gen_readlink raw ex = Val (readlink_clean raw ex).
+Proof.
+  intros raw ex. unfold run_readlink, gen_readlink, readlink_clean, deleted_sfx.
+  cbn [fold_left rstep obind]. reflexivity.
+Qed.
+
+(* isfile_strict: a permission failure of stat() is re-raised (-> AccessDenied), EVERY other OSError means
+   "not a regular file", success gives S_ISREG; path_exists_strict: the same with True on success *)
+Theorem gen_strict_helpers_correct :
+  (forall s, strict_answer gen_isfile_strict s =
+             match s with StOk r => SBool r | StErr EPerm => SDenied | StErr _ => SBool false end) /\
+  (forall s, strict_answer gen_path_exists_strict s =
+             match s with StOk _ => SBool true | StErr EPerm => SDenied | StErr _ => SBool false end).
+Proof. split; intros [r|[]]; vm_compute; reflexivity. Qed.
